@@ -459,4 +459,116 @@ theorem run_client (cd : Codec α) (cfg : EncCfg) (hs : cfg.server = false) (n :
             rw [hf] at hrun
             simp [hrun]
 
+/-! ### `is_end_stream` -/
+
+/-- The flag is raised only by the poll that produces the trailers frame, and only in a server body. -/
+theorem pollFrame_end (cd : Codec α) (cfg : EncCfg) (b : BodySt) (evs : List (SrcEv α))
+    (hb : b.isEndStream = false) (h : (Enc.pollFrame cd cfg b evs).1.isEndStream = true) :
+    cfg.server = true ∧ ∃ st, (Enc.pollFrame cd cfg b evs).2.2 = .trailers st := by
+  unfold Enc.pollFrame at h ⊢
+  simp only [hb, Bool.false_eq_true, ↓reduceIte] at h ⊢
+  generalize Enc.pollNext cd cfg b.inner evs = r at h ⊢
+  obtain ⟨s', evs', o⟩ := r
+  cases o with
+  | data d => simp [hb] at h
+  | pending => simp [hb] at h
+  | panic => simp [hb] at h
+  | err st =>
+    dsimp only at h ⊢
+    cases hs : cfg.server with
+    | true => simp
+    | false => simp [hs, hb] at h
+  | done =>
+    dsimp only at h ⊢
+    cases hs : cfg.server with
+    | true => simp
+    | false => simp [hs, hb] at h
+
+theorem endFlags_ended (cd : Codec α) (cfg : EncCfg) (n : Nat) : ∀ (b : BodySt) (evs : List (SrcEv α)),
+    b.isEndStream = true → Enc.endFlags cd cfg n b evs = List.replicate (n + 1) true := by
+  induction n with
+  | zero => intro b evs h; simp [Enc.endFlags, Enc.isEndStream, h]
+  | succ n ih =>
+    intro b evs h
+    simp only [Enc.endFlags, Enc.pollFrame, h, ↓reduceIte, Enc.isEndStream]
+    rw [ih b evs h]
+    simp [List.replicate_succ]
+
+/-- **`is_end_stream()` is true only after the trailers frame.**  From a body that has not ended:
+if the flag observed before poll `i` (or after the last poll) is true, the body is a server body,
+the trailers frame was produced by an earlier poll, and every poll from `i` on yields `None` — in
+particular no data frame follows, and a client body never raises the flag. -/
+theorem endFlags_sound (cd : Codec α) (cfg : EncCfg) (n : Nat) : ∀ (b : BodySt) (evs : List (SrcEv α)),
+    b.isEndStream = false → ∀ (i : Nat), (Enc.endFlags cd cfg n b evs)[i]? = some true →
+    cfg.server = true ∧ (∃ (j : Nat) (st : St), j < i ∧ (Enc.run cd cfg n b evs)[j]? = some (FrameOut.trailers st)) ∧
+    ∀ (j : Nat) (o : FrameOut), i ≤ j → (Enc.run cd cfg n b evs)[j]? = some o → o = FrameOut.none := by
+  induction n with
+  | zero =>
+    intro b evs hb i hi
+    cases i with
+    | zero => simp [Enc.endFlags, Enc.isEndStream, hb] at hi
+    | succ i => simp [Enc.endFlags] at hi
+  | succ n ih =>
+    intro b evs hb i hi
+    cases i with
+    | zero => simp [Enc.endFlags, Enc.isEndStream, hb] at hi
+    | succ i =>
+      have hend := pollFrame_end cd cfg b evs hb
+      simp only [Enc.endFlags, Enc.run] at hi ⊢
+      generalize Enc.pollFrame cd cfg b evs = r at hi hend ⊢
+      obtain ⟨b', evs', o⟩ := r
+      simp only [List.getElem?_cons_succ] at hi
+      cases hb' : b'.isEndStream with
+      | false =>
+        obtain ⟨hs, ⟨j, st, hj, hrun⟩, hafter⟩ := ih b' evs' hb' i hi
+        refine ⟨hs, ⟨j + 1, st, by omega, by simpa using hrun⟩, ?_⟩
+        intro j' o' hle hget
+        cases j' with
+        | zero => omega
+        | succ j' => exact hafter j' o' (by omega) (by simpa using hget)
+      | true =>
+        obtain ⟨hs, st, ho⟩ := hend hb'
+        dsimp only at ho
+        subst ho
+        refine ⟨hs, ⟨0, st, by omega, by simp⟩, ?_⟩
+        intro j' o' hle hget
+        cases j' with
+        | zero => omega
+        | succ j' =>
+          rw [run_ended cd cfg n b' evs' hb'] at hget
+          simp only [List.getElem?_cons_succ] at hget
+          have := List.mem_of_getElem? hget
+          exact (List.mem_replicate.mp this).2
+
+/-! ### A failing `Encoder::encode` at any position -/
+
+/-- a prefix of a schedule that cannot fail: `Pending`s and encodable items only -/
+def AllOk (cd : Codec α) (cfg : EncCfg) : List (SrcEv α) → Prop
+  | [] => True
+  | .pending :: r => AllOk cd cfg r
+  | .item m :: r => encodeErr cd cfg m = none ∧ AllOk cd cfg r
+  | .err _ :: _ => False
+
+def itemsOfEvs : List (SrcEv α) → List α
+  | [] => []
+  | .item m :: r => m :: itemsOfEvs r
+  | _ :: r => itemsOfEvs r
+
+theorem okPrefix_append (cd : Codec α) (cfg : EncCfg) (pre tail : List (SrcEv α)) (h : AllOk cd cfg pre) :
+    okPrefix cd cfg (pre ++ tail) = itemsOfEvs pre ++ okPrefix cd cfg tail ∧
+    finalSt cd cfg (pre ++ tail) = finalSt cd cfg tail := by
+  induction pre with
+  | nil => simp [itemsOfEvs]
+  | cons ev r ih =>
+    cases ev with
+    | pending => simpa [okPrefix, itemsOfEvs, finalSt] using ih h
+    | err st => exact absurd h (by simp [AllOk])
+    | item m =>
+      obtain ⟨he, hr⟩ := h
+      simp [okPrefix, itemsOfEvs, finalSt, he, ih hr]
+
+theorem serFail_encodeErr (cd : Codec α) (cfg : EncCfg) (m : α) (h : cd.serFail m = true) :
+    encodeErr cd cfg m = some ⟨13, .encode⟩ := by
+  simp [encodeErr, h]
+
 end Framing
